@@ -60,13 +60,14 @@ const (
 	_refStartTag = 0x51
 )
 
-// used to ref object,list,map
-type _refElem struct {
-	// record the kind of target, objects are the same only if the address and kind are the same
-	kind reflect.Kind
-
-	// ref index
-	index int
+// key of an encoded object,list,map in the encoder ref map.
+// Two values are the same container only if address, type and length are
+// the same: a struct and its first field, or two slices of different length
+// over one array, share an address but are different containers.
+type _refKey struct {
+	addr   unsafe.Pointer
+	typ    reflect.Type
+	length int
 }
 
 func refTag(tag byte) bool {
@@ -81,43 +82,36 @@ func (e *Encoder) writeRef(index int) (int, error) {
 // return the order number of ref object if found ,
 // otherwise, add the object into the encode ref map
 func (e *Encoder) checkEncodeRefMap(v reflect.Value) (int, bool) {
-	var (
-		kind reflect.Kind
-		addr unsafe.Pointer
-	)
+	var key _refKey
 
 	if v.Kind() == reflect.Ptr {
 		for v.Elem().Kind() == reflect.Ptr {
 			v = v.Elem()
 		}
-		kind = v.Elem().Kind()
-		if kind == reflect.Slice || kind == reflect.Map {
-			addr = unsafe.Pointer(v.Elem().Pointer())
+		elem := v.Elem()
+		key.typ = elem.Type()
+		if kind := elem.Kind(); kind == reflect.Slice || kind == reflect.Map {
+			key.addr = unsafe.Pointer(elem.Pointer())
+			key.length = elem.Len()
 		} else {
-			addr = unsafe.Pointer(v.Pointer())
+			key.addr = unsafe.Pointer(v.Pointer())
 		}
 	} else {
-		kind = v.Kind()
-		switch kind {
+		key.typ = v.Type()
+		switch v.Kind() {
 		case reflect.Slice, reflect.Map:
-			addr = unsafe.Pointer(v.Pointer())
+			key.addr = unsafe.Pointer(v.Pointer())
+			key.length = v.Len()
 		default:
-			addr = unsafe.Pointer(PackPtr(v).Pointer())
+			key.addr = unsafe.Pointer(PackPtr(v).Pointer())
 		}
 	}
 
-	if elem, ok := e.refMap[addr]; ok {
-		// the array addr is equal to the first elem, which must ignore
-		if elem.kind == kind {
-			// fmt.Printf("-----> find ref: %d, %p, %v, %v\n", elem.index, addr, kind, v)
-			return elem.index, ok
-		}
-		return 0, false
+	if n, ok := e.refMap[key]; ok {
+		return n, true
 	}
 
-	n := len(e.refMap)
-	e.refMap[addr] = _refElem{kind, n}
-	// fmt.Printf("---> add ref: %d, %p, %v, %v\n", n, addr, kind, v)
+	e.refMap[key] = len(e.refMap)
 	return 0, false
 }
 
